@@ -319,6 +319,28 @@ def ldpc(tier, seed):
         yield ("ldpc", f"H={nm}", {"H": T(H)})
 
 
+def dtype_spellings(tier, seed):
+    """the SAME matrices handed to the constructors as bool / integer / double tensors: the object must describe the same code (all clauses
+    of the property are evaluated on it), or the constructor declines the dtype"""
+    dts = ["bool", "int64", "int32", "uint8", "float64"]
+    mats = [(n, rows) for k, n in ((2, 3), (2, 4)) for rows in all_fullrank(k, n)]
+    mats += [(4, rows) for i, rows in enumerate(all_fullrank(3, 4)) if i % 7 == seed % 7]
+    mats += [(6, (0b101011, 0b110101, 0b111100)), (6, (0b010111, 0b111010, 0b100101)), (5, (0b11011, 0b10110)), (7, (0b1101, 0b11010, 0b110100, 0b1101000))]
+    for n, rows in mats:
+        for dt in dts:
+            yield ("generic", f"G={mat_str(rows, n)},dtype={dt}", {"G": T(rows_to_lists(rows, n), dt), "admissible": False})
+    for Pm in ([[1, 1, 0], [0, 1, 1]], [[1, 0, 1, 1], [1, 1, 0, 1], [0, 1, 1, 1]], [[1], [1], [1]]):
+        for info in ("left", "right"):
+            for dt in dts:
+                pstr = ".".join("".join(map(str, r)) for r in Pm)
+                yield ("systematic", f"P={len(Pm)}x{len(Pm[0])}:{pstr},info={info},dtype={dt}", {"P": T(Pm, dt), "info": info, "admissible": False})
+    Hs = {"doc3x6": [[1, 1, 0, 1, 0, 0], [0, 1, 1, 0, 1, 0], [1, 0, 1, 0, 0, 1]], "dup3x6": [[1, 1, 0, 1, 0, 0], [1, 1, 0, 1, 0, 0], [0, 0, 1, 0, 1, 1]],
+          "ham3x7": [[1, 1, 0, 1, 1, 0, 0], [1, 0, 1, 1, 0, 1, 0], [0, 1, 1, 1, 0, 0, 1]], "2x4": [[1, 1, 1, 0], [0, 1, 1, 1]]}
+    for nm, H in Hs.items():
+        for dt in dts:
+            yield ("ldpc", f"H={nm},dtype={dt}", {"H": T(H, dt), "admissible": False})
+
+
 def mixing_sequences():
     """configurations of the same class and the same (n, k) but different parameters, to be built and used A, B, A, ... in ONE process:
     state shared between instances (class-level / module-level caches keyed too coarsely) then shows up deterministically"""
@@ -345,7 +367,7 @@ def mixing_sequences():
 
 FAMILIES = {
     "generic": generic_small, "generic-structured": generic_structured, "systematic": systematic, "hamming": hamming,
-    "golay": golay, "repetition": repetition, "spc": spc, "rm": rm, "cyclic": cyclic, "bch": bch, "rs": rs, "ldpc": ldpc,
+    "golay": golay, "repetition": repetition, "spc": spc, "rm": rm, "cyclic": cyclic, "bch": bch, "rs": rs, "ldpc": ldpc, "dtype-spelling": dtype_spellings,
 }
 
 
